@@ -1501,6 +1501,7 @@ pub fn part_evallong(out: &mut Out, o: &Opts) {
     for t in [
         "a &\r\nb", "a\r\n&\r\nb\r\n", "\u{feff}a & b", "a & b\u{feff}", "a\t&\tb", "a\u{c}& b", "a & b\n", "a & b\n\n\n", "\na & b", "a &\rb",
         "a\u{a0}& b", "a\u{2028}& b", "a\u{200b}b", "a\u{301} & b", "e\u{301}x & ex", "a & b\0", "\0a & b", "a\0b",
+        "x\u{304} & -x", "x\u{304} <=> x", "[e\u{301}, e] = 1", "forall x # (x\u{304} | x)", "a\u{200d}b & -ab", "ﬁ & -fi", "Å & -Å", "x\u{660} & -x0", "a\0& b", "a |\0-b", "(a)\0)",
         "\"open comment a & b", "a & b \"trailing", "a \"x\" \"y\" & b", "a \"\" & b", "\"\"", "\"\r\n\" a",
     ] {
         texts.push(t.to_string());
@@ -1532,10 +1533,103 @@ pub fn part_evallong(out: &mut Out, o: &Opts) {
     }
 }
 
+// ------------------------------------------------------------------------------------------------
+// identifiers with the same 64-bit FxHash (and the same std SipHash(0,0)?  no: only FxHash can be solved for)
+
+fn fx_str(s: &str) -> u64 {
+    use std::hash::{Hash, Hasher};
+    let mut h = rustc_hash::FxHasher::default();
+    s.hash(&mut h);
+    h.finish()
+}
+
+/// pairs of distinct 16-character identifiers whose `str` hashes under FxHasher coincide: the first 8 bytes of both are
+/// drawn at random, the second 8 bytes are solved byte by byte so that the state after 16 bytes is the same
+pub fn colliding_names(seed: u64, want: usize) -> Vec<(String, String)> {
+    let alpha: Vec<u8> = (b'a'..=b'z').chain(b'0'..=b'9').chain([b'_']).collect();
+    let letters: Vec<u8> = (b'a'..=b'z').collect();
+    let mut rng = Rng::new(seed ^ 0xc011);
+    let mut out = vec![];
+    let mut tries = 0;
+    while out.len() < want && tries < 2_000_000 {
+        tries += 1;
+        let mut w1 = [0u8; 8];
+        let mut w1b = [0u8; 8];
+        for i in 0..8 {
+            w1[i] = if i == 0 { *rng.pick(&letters) } else { *rng.pick(&alpha) };
+            w1b[i] = if i == 0 { *rng.pick(&letters) } else { *rng.pick(&alpha) };
+        }
+        if w1 == w1b {
+            continue;
+        }
+        let st = |w: [u8; 8]| (0u64.rotate_left(5) ^ u64::from_le_bytes(w)).wrapping_mul(FX_K).rotate_left(5);
+        let d = (st(w1) ^ st(w1b)).to_le_bytes();
+        // second words w2, w2b with w2 ^ w2b = d, both over the identifier alphabet
+        let mut w2 = [0u8; 8];
+        let mut w2b = [0u8; 8];
+        let mut ok = true;
+        for i in 0..8 {
+            let cands: Vec<u8> = alpha.iter().copied().filter(|c| alpha.contains(&(c ^ d[i]))).collect();
+            if cands.is_empty() {
+                ok = false;
+                break;
+            }
+            w2[i] = *rng.pick(&cands);
+            w2b[i] = w2[i] ^ d[i];
+        }
+        if !ok {
+            continue;
+        }
+        let a = String::from_utf8([w1, w2].concat()).unwrap();
+        let b = String::from_utf8([w1b, w2b].concat()).unwrap();
+        // kept only when the real hasher agrees
+        if a != b && fx_str(&a) == fx_str(&b) {
+            out.push((a, b));
+        }
+    }
+    out
+}
+
+pub fn collision_formulas(seed: u64, pairs: usize) -> Vec<String> {
+    let mut v = vec![];
+    for (a, b) in colliding_names(seed, pairs) {
+        for t in [
+            format!("{a} & -{b}"),
+            format!("{b} & -{a}"),
+            format!("exists {a} # ({a} & {b})"),
+            format!("forall {b} # ({a} | {b}) & c"),
+            format!("[{a}, {b}] = 1"),
+            format!("{a} ^ {b} ^ c"),
+            format!("lfp {a} # {b} | ({a} & c)"),
+            format!("if {a} then {b} else c"),
+            format!("c & ({b} => {a})"),
+        ] {
+            v.push(t);
+        }
+    }
+    v
+}
+
+pub fn part_evalcoll(out: &mut Out, o: &Opts) {
+    let n = if o.thorough { 40 } else { 6 };
+    let pairs = colliding_names(o.seed, n);
+    eprintln!("evalcoll: {} colliding identifier pairs", pairs.len());
+    for t in collision_formulas(o.seed, n) {
+        emit_tok(out, &t, &[]);
+        emit_eval(out, &t, &[]);
+    }
+    // the same names in an API ordering
+    for (a, b) in pairs {
+        emit_eval(out, &format!("{a} & -{b} | c"), &[(b.clone(), 0), (a.clone(), 1)]);
+        emit_eval(out, &format!("{a} & -{b} | c"), &[(a.clone(), 4), ("c".to_string(), 2)]);
+    }
+}
+
 pub fn main(out: &mut Out, o: &Opts) {
     for p in o.parts.clone() {
         match p.as_str() {
             "evalq" => part_evalq(out, o),
+            "evalcoll" => part_evalcoll(out, o),
             "evallong" => part_evallong(out, o),
             "sym" => part_sym(out, o),
             "evalx" => part_evalx(out, o),
